@@ -108,5 +108,5 @@ if __name__ == "__main__":
     a = args()
     from harness import _c10_tables
     emit([check_chunking(a.tier), _c10_tables.check_read_percolator(a.tier, a.seed),
-          _c10_tables.check_rejects(a.tier, a.seed)],
+          _c10_tables.check_missing_cells(a.tier, a.seed), _c10_tables.check_rejects(a.tier, a.seed)],
          ["run-time evaluation of the contract text on the real functions"] + list(getattr(_c10_tables, "ASSUMPTIONS", [])))
